@@ -123,3 +123,49 @@ Theorem C01_examine_safe : forall batch, (0 < batch)%nat -> forall gh c K1 K2,
   total_weight (c_vals c) * 2 / 3 + 1 <= c_pc c ->
   vd_safe v = true.
 Proof. exact examine_safe. Qed.
+
+(* ------------------------------------------------------------------ dynamic validator sets (blocks may carry parameter changes) *)
+From LE Require Import BFT.VotesGhostDyn BFT.SafetyDyn BFT.SafetyDynExamples.
+
+(* PARTIAL — the ONLY extra premise is quorum intersection stated on the model ([QI_model_decl]): for any two chains of the
+   universe that have DIFFERENT blocks at height a, any duplicate-free validator list reaching the precommit threshold of the
+   parameters in force at height a in the first view and any duplicate-free list reaching the prevote threshold in force at
+   height d >= a in the second view share an honest validator. Without it the statement is false
+   (C01_refuted_validator_change; [C01_refuted_universe_violates_QI] shows that witness indeed violates the premise).
+   Chains are valid per [validD_decl]: consecutive heights, both BFT rules in the prefix view, run_blocks succeeds; blocks MAY
+   carry parameter changes (validators join/leave, weights and thresholds change, per chain). *)
+Theorem C01_dynamic_safety_partial : forall (batch : nat) (gh : N) (c : pchange) (s0 : store) (U : chain -> Prop),
+  (0 < batch)%nat -> init_store batch gh c = Ok s0 ->
+  universeD_decl batch gh s0 U ->
+  QI_model_decl batch gh s0 U ->
+  forall K1 K2 s1 s2 h1 h2, U K1 -> U K2 ->
+    run_blocks batch s0 K1 = Ok s1 -> run_blocks batch s0 K2 = Ok s2 ->
+    gh < h1 <= v_mhpc (s_votes s1) -> gh < h2 <= v_mhpc (s_votes s2) ->
+    prefix (firstn (N.to_nat (h1 - gh)) K1) (firstn (N.to_nat (h2 - gh)) K2) \/
+    prefix (firstn (N.to_nat (h2 - gh)) K2) (firstn (N.to_nat (h1 - gh)) K1).
+Proof. exact SafetyDyn.C01_dynamic_safety_partial. Qed.
+
+(* Corollary: all parameter changes lie below the fork — every windowed height at or above a height where two chains differ is
+   governed by one validator list / thresholds in every view — and prevoteThr + precommitThr > W + f for those parameters:
+   then QI holds, hence safety. PARTIAL only in that [fork_params] restricts the schedules. *)
+Theorem C01_dynamic_safety_fork_params_partial :
+  forall (batch : nat) (gh : N) (c : pchange) (s0 : store) (U : chain -> Prop)
+         (vstar : list (addr * N)) (pcstar pvstar : N) (byz : list addr),
+  (0 < batch)%nat -> init_store batch gh c = Ok s0 ->
+  universeD_decl batch gh s0 U ->
+  fork_params batch gh s0 U vstar pcstar pvstar ->
+  (forall v, In v (map fst vstar) -> ~ In v byz -> honest U v) ->
+  total_weight vstar + wsum vstar byz < pcstar + pvstar ->
+  forall K1 K2 s1 s2 h1 h2, U K1 -> U K2 ->
+    run_blocks batch s0 K1 = Ok s1 -> run_blocks batch s0 K2 = Ok s2 ->
+    gh < h1 <= v_mhpc (s_votes s1) -> gh < h2 <= v_mhpc (s_votes s2) ->
+    prefix (firstn (N.to_nat (h1 - gh)) K1) (firstn (N.to_nat (h2 - gh)) K2) \/
+    prefix (firstn (N.to_nat (h2 - gh)) K2) (firstn (N.to_nat (h1 - gh)) K1).
+Proof. exact SafetyDyn.C01_dynamic_safety_fork_params_partial. Qed.
+
+(* the refutation witness of the validator-change finding violates the QI premise; a universe with a change in the common
+   prefix satisfies it (non-vacuity) *)
+Theorem C01_refuted_universe_violates_QI : ~ QI_model_decl 4 0 s0d U_chg.
+Proof. exact refuted_universe_violates_QI. Qed.
+Theorem C01_changed_prefix_universe_satisfies_QI : QI_model_decl 4 0 s0d Ud.
+Proof. exact changed_prefix_universe_satisfies_QI. Qed.
